@@ -54,7 +54,10 @@ def configs(tier: str):
 def other_specs(tier: str, n: int):
     """Menu of the 2nd (and 3rd) group: reduced so the product stays enumerable."""
     m = dict(dist.menus(tier))
-    if tier == "quick":
+    if tier == "quick" and n == 3:
+        m.update(shape=[(1, 1)], soc=[20.0, 40.0, 80.0], cap=[1000.0], bexcl=[0.0, 100.0], bincl=[500.0],
+                 iexcl=[0.0, 200.0], iincl=[1000.0])
+    elif tier == "quick":
         m.update(shape=[(1, 1), (1, 2)], soc=[20.0, 40.0, 80.0], cap=[1000.0], bexcl=[0.0, 300.0],
                  bincl=[500.0], iexcl=[0.0, 200.0], iincl=[1000.0])
     elif n == 2:
@@ -69,7 +72,10 @@ def other_specs(tier: str, n: int):
 
 def first_specs(tier: str, n: int):
     m = dict(dist.menus(tier))
-    if n == 3:
+    if n == 3 and tier == "quick":
+        m.update(shape=[(1, 1)], soc=[20.0, 40.0, 80.0], cap=[1000.0], bexcl=[0.0, 100.0, 300.0],
+                 bincl=[500.0], iexcl=[0.0, 200.0], iincl=[1000.0], lower_scale=[1.0])
+    elif n == 3:
         m.update(shape=[(1, 1), (1, 2)], soc=[20.0, 40.0, 80.0], cap=[1000.0, 3000.0], bexcl=[0.0, 100.0, 300.0],
                  bincl=[500.0, 1000.0], iexcl=[0.0, 200.0], iincl=[400.0, 1000.0], lower_scale=[1.0])
     return dist.group_specs(m)
